@@ -125,3 +125,7 @@ PROPS["C16"] = {"theorems": [("GdslModel.Props.C16", "G.Traits." + t) for t in [
     "level_text": "Machine-checked proof (Lean 4) that, under the transcribed auto-trait rules, each sync Node/Edge/Graph (and WeakNode) is Send resp. Sync exactly when K, N and E are all Send+Sync, and each plain type never is - for every instantiation, since a payload enters only through its two capability bits and all 4^3 assignments are decided. The definition tables (struct bodies, type aliases, every explicit impl Send/Sync with its bounds) are regenerated from /repo's sources by a translator on every run, so weakening a bound or changing a field type breaks the proof itself. The transcription of std's rules is validated against rustc: a probe binary reads the real trait solver's verdict for 4 flavours x 3 types x 64 payload witnesses x 2 traits and is compared row by row with the model; the rustc table is also judged directly against the statement. The 'consequently no data race' clause rests on Rust's meaning of Send/Sync and is not modelled.",
     "level_note": "Trusted: Lean kernel (+ propext, Classical.choice, Quot.sound), the translator (fails loudly on constructs it does not know), the transcription of std's auto-trait rules (checked against rustc by the probe), rustc itself for the probe rows.",
     "design_ref": "DESIGN.md section 7, C16"}
+
+PROPS["C19"] = {"theorems": [], "oracles": ["c19"],
+    "rule": "seeded histories over the four flavours with drop-counting node values: build/use phase (nodes, clones, containers, edges, paths, search results, orderings held in slots; unconnected nodes come and go), hand-off phase (the original handles are dropped first, so results/containers/clones alone keep nodes alive), tear-down in random order; after every request the set of released values is compared with the model and with the handles actually held. distinct_nontrivial = number of histories.",
+    "exhaustive": False, "level_text": "", "level_note": CORR_NOTE, "technique": "", "design_ref": "DESIGN.md section 7, C19"}
